@@ -57,6 +57,11 @@ def blocks(tier, seed):
     for mask in ([True, False], [False, False]):
         out.append({"kind": "numthr", "mask": mask, "phase": ph})
     out.append({"kind": "nproc-history", "phase": ph})
+    # periodic cylinders with one-decimal (not exactly representable) bounds, droplet centred EXACTLY on the periodic z boundary;
+    # the image is rendered by the harness with the minimal-image distance (the library does not wrap z when rendering, F12)
+    for L in (11.1, 12.3, 16.8):
+        for nz in (20, 37):
+            out.append({"kind": "cyl-boundary", "L": L, "nz": nz, "phase": ph})
     out.append({"kind": "shared-args", "phase": ph})
     out.append({"kind": "shared-grid", "phase": ph})
     for k in ("polar", "sph"):
@@ -128,6 +133,15 @@ def cases(block):
             for Rf, wf in ((3.2, 2.0), (4.5, 1.5)):
                 for thr in (0.1, 0.25, 0.75, 0.9):
                     yield {"grid": g, "drops": [[[0.0] * dim, Rf, wf]], "rule": thr, "intensity": "standard", "classes": ["centred"], "numthr": True}
+    elif k == "cyl-boundary":
+        L, nz = block["L"], block["nz"]
+        for kk in range(0, 41, 2):
+            z0 = round(0.7 * kk - 10, 1)
+            z1 = round(z0 + L, 1)
+            dz = (z1 - z0) / nz
+            g = {"kind": "cyl", "shape": [int(round(8 / dz)), nz], "R": 8.0, "z": [z0, z1], "periodic_z": True}
+            for zc in (z0, z1):
+                yield {"grid": g, "drops": [[[0.0, 0.0, zc], 3.3 * dz, 1.3 * dz]], "rule": 0.5, "intensity": "standard", "classes": ["on-boundary"], "own_render": True}
     elif k == "nproc-history":
         # several different images on EQUAL grids analysed one after the other with worker processes (controlled pool of mcx/sched.py,
         # default schedule), fresh process per sequence: every ordered pair / triple of four images
@@ -260,9 +274,14 @@ def run_case(case, ctx):
                 if gap < 10 * max(drops[i][2], drops[j][2]) - 1e-9:
                     ctx.skip("precondition:gap")
                     return
-    em0 = Emulsion([DiffuseDroplet(np.array(c, float), R, w) for c, R, w in drops])
-    base = em0.get_phasefield(grid).data
-    ctx.op()
+    if case.get("own_render"):
+        (c, R, w), = drops
+        base = 0.5 + 0.5 * np.tanh((R - geom.sym_dist(g, c)) / w)
+        ctx.count("droplet-centred-on-periodic-z-boundary")
+    else:
+        em0 = Emulsion([DiffuseDroplet(np.array(c, float), R, w) for c, R, w in drops])
+        base = em0.get_phasefield(grid).data
+        ctx.op()
     a, b = 1.0, 0.0
     if it.startswith("affine"):
         a, b = AFF[int(it[6])]
@@ -311,7 +330,12 @@ def run_case(case, ctx):
         ctx.count("straddling-on-non-square-box")
 
     def pd(p, q):
-        return geom.point_dist(g, p, q) if kind == "cart" else float(np.linalg.norm(np.asarray(p) - np.asarray(q)))
+        if kind == "cart":
+            return geom.point_dist(g, p, q)
+        dlt = np.asarray(p, float) - np.asarray(q, float)
+        if kind == "cyl" and g["periodic_z"]:
+            dlt[2] = geom.min_image(dlt[2], g["z"][1] - g["z"][0], True)
+        return float(np.linalg.norm(dlt))
 
     order = list(range(len(drops)))
     if len(drops) == 2 and pd(em[0].position, drops[0][0]) > pd(em[0].position, drops[1][0]):
@@ -331,4 +355,4 @@ def run_case(case, ctx):
 
 def expected_positive(tier):
     return ["C05.count", "C05.position", "C05.radius", "C05.width", "C05.inbox", "across-or-outside-periodic-boundary", "fitted-levels", "two-droplets",
-            "small-droplet-within-one-big-radius-of-big-surface", "straddling-on-non-square-box", "annular-grid", "cylindrical-z-range-excluding-0", "shared-options-sequences", "shared-grid-sequences", "numeric-threshold-off-mid-level", "worker-process-sequences"]
+            "small-droplet-within-one-big-radius-of-big-surface", "straddling-on-non-square-box", "annular-grid", "cylindrical-z-range-excluding-0", "shared-options-sequences", "shared-grid-sequences", "numeric-threshold-off-mid-level", "worker-process-sequences", "droplet-centred-on-periodic-z-boundary"]
